@@ -49,4 +49,28 @@ META = {
         "level_text": "Interleaved histories of bind, unbind, reconnect, entity removal, subscription and write operations by three peers; every write is checked for the full set of observable effects (data, notifications on every connection, events, results) against the authorisation that held at that moment, including the immediacy clauses (accepted right after a granted binding; rejected right after unbind, reconnect, entity removal and re-addition).",
         "level_note": "Trusted: reference fold for the effect of accepted writes; acceptance of authorised partial writes is not predicted (C04 owns protection), only its consistency; full writes must be accepted.",
     },
+    "C10": {
+        "technique": "model-based property testing (rapid state machine) with before/after isolation snapshots per peer and a silence watch on removed connections",
+        "design_ref": "DESIGN.md §4 C10",
+        "level_text": "Histories in which several peers with overlapping numbering build up registry entries, pending approvals and client-side bookkeeping, and connections or entities are removed at arbitrary points (also re-entrantly from another peer's writer). Isolation is decided by comparing complete per-peer snapshots before and after, counting removal events, probing the survivors with a read, and watching the removed writer past the approval time-out.",
+        "level_note": "Trusted: snapshot helpers over the public registry API. Concurrent removal (real goroutines) is C17's subject.",
+    },
+    "C14": {
+        "technique": "model-based property testing (rapid state machine) with a reference callback table; concurrent registrations judged by linearisation intervals",
+        "design_ref": "DESIGN.md §4 C14",
+        "level_text": "Registrations and deliveries are generated over several features, counters, peers and callback sites; the invocation log (count, reference, remote feature, data) is compared with a reference table consumed on first accepted delivery. Exploration over generated histories; the concurrent windows accept exactly the outcomes a linearisation allows.",
+        "level_note": "Trusted: the goroutine barrier (all callback goroutines finished before judging). Callbacks on NodeManagement for replies are outside the asserted domain (DESIGN §4 C14 NA).",
+    },
+    "C15": {
+        "technique": "property-based testing of operation histories on the event bus with an interval (linearisation-window) oracle and a deadlock watchdog",
+        "design_ref": "DESIGN.md §4 C15",
+        "level_text": "Histories of subscribe/unsubscribe/publish with re-entrant handlers and parallel publishers are judged per (handler, event) pair from start/end stamps: exactly once when subscribed throughout, never when unsubscribed throughout, at most once when overlapping. Core-before-application ordering is observed through the stamps of the peer's capture writer. Exploration; schedules are whatever the Go scheduler produces.",
+        "level_note": "Trusted: one atomic stamp counter orders the log. Publishing from inside a core-level handler is not exercised (only the stack's own handler runs there).",
+    },
+    "C20": {
+        "technique": "model-based property testing (rapid state machine) against a reference registry; exhaustive enumeration of read-modify-write interleavings over a build-tag yield point; free-running stress",
+        "design_ref": "DESIGN.md §4 C20, Appendix A.4",
+        "level_text": "Sequential histories are compared after every step with a reference map through three observations (Has for every triple, DataCopy, a peer's read). The concurrent clause is decided by enumerating all merge orders of the copy/store segments of operations on different entities (yield point UseCase.afterCopy) and by free-running goroutines.",
+        "level_note": "Trusted: sched engine; commutativity of operations on different entities. Interleavings inside the model helpers themselves are only reached by stress.",
+    },
 }
